@@ -39,9 +39,33 @@ def known_fragment(run):
                 run.known.append(k)
 
 
-def scenarios(dumps, tier):
+MAXA = (1 << 64) - 1
+
+
+def map_histories(rng, tier):
+    """addrxlat_map_set histories (hex a:e:m, m decimal): first updates of an empty map at
+    zero / in the middle / up to the end / with the NONE method, then splits and merges"""
+    hs = ["1000:fff:1", "0:fff:1", "fffffffffffff000:fff:2", "0:ffffffffffffffff:-1", "0:ffffffffffffffff:3",
+          "2000:fff:-1", "1000:fff:1,0:fff:2", "1000:fff:1,2000:fff:1,3000:fff:2,1800:fff:-1",
+          "0:ffffffffffffffff:1,5000:fff:3,5000:fff:1"]
+    for _ in range(8 if tier == "quick" else 60):
+        ops = []
+        pool = [0, 0x1000, 0x2000, 0x7fff0000, 0xffff800000000000, MAXA - 0xfff]
+        for _ in range(rng.randint(1, 5)):
+            a = rng.choice(pool) + rng.choice([0, 0, 0x1000, 0x800])
+            a = min(a, MAXA)
+            e = min(rng.choice([0xfff, 0x1fff, 0, 0x7ff, MAXA]), MAXA - a)
+            ops.append("%x:%x:%d" % (a, e, rng.choice([-1, 1, 1, 2, 3])))
+            pool += [a + e + 1] if a + e < MAXA else []
+        hs.append(",".join(ops))
+    return hs
+
+
+def scenarios(dumps, tier, rng=None):
     """(name, format, case line with @N, expect-clean-window)"""
     sc = [("new", "-", "new @N")]
+    if rng is not None:
+        sc += [("wb_map_seq", "-", "wb_map_seq @N " + h) for h in map_histories(rng, tier)]
     for fmt, path in sorted(dumps.items()):
         sc += [
             ("open", fmt, "open @N %s" % path),
@@ -177,7 +201,7 @@ def check(run):
                           rp["replay"].get("model"))], out)
         return
 
-    scs = scenarios(dumps, run.tier)
+    scs = scenarios(dumps, run.tier, run.rng)
     base_lines = [(c + " ").replace(" @N ", " 0 ", 1).strip() for _, _, c in scs]
     base, _ = core.run_impl_lines(exe, run.work, base_lines, timeout=600)
     cases = []
@@ -268,6 +292,7 @@ def judge(run, exe, cases, out):
         for j, v in zip(spec_idx, verd):
             if v != "ok" and results[j][10] and basev.get(key(results[j]), "ok") != v:
                 results[j][5].append("spec:" + v.replace(" ", "_"))
+    judge_map_steps(run, results)
     sites = set()
     reported = 0
     for name, fmt, line, mline, kv, sy, site, caller, cev, m, injected in results:
@@ -291,6 +316,46 @@ def judge(run, exe, cases, out):
     run.cov["histogram"]["distinct-failing-sites"] = len(sites)
 
 
+def judge_map_steps(run, results):
+    """wb_map_seq: every step judged by the C10 spec (engine map-spec: a NOMEM step must leave the
+    exposed range list bit-identical, a successful one must change exactly the range) and compared
+    with the C10 model (engine map) under the same allocation outcome"""
+    from .c10 import spec_lines, hexs
+    spec_in, owner, model_in, mowner = [], [], [], []
+    for idx, r in enumerate(results):
+        name, line, kv = r[0], r[2], r[4]
+        if name != "wb_map_seq" or kv.get("rc") != "0" or "mapsteps" not in kv:
+            continue
+        hist = line.split()[2].split(",")
+        steps = [x for x in kv["mapsteps"].split(";") if x]
+        if len(steps) != len(hist):
+            r[5].append("map:steps-missing")
+            continue
+        ops, outs = [], []
+        for h, st in zip(hist, steps):
+            a, e, m = h.split(":")
+            o, _, after = st.partition("=")
+            ok = 0 if o == "S4" else 1
+            ops.append("S:%s:%s:%s:%d" % (a, e, hexs(int(m)), ok))
+            outs.append((o, after))
+        sl = spec_lines(ops, outs)
+        spec_in += sl
+        owner += [idx] * len(sl)
+        model_in.append(" ".join(ops))
+        mowner.append((idx, " ".join("%s=%s;" % (o, a) for o, a in outs)))
+    if not spec_in:
+        return
+    verd = core.run_model("map-spec", run.casefile("oom-map-spec.txt", spec_in))
+    run.count("map-steps-judged-by-C10-spec", len(verd))
+    for i, v in zip(owner, verd):
+        if v != "ok" and not any(x.startswith("map-spec:") for x in results[i][5]):
+            results[i][5].append("map-spec:" + v.replace(" ", "_"))
+    model = core.run_model("map", run.casefile("oom-map-model.txt", model_in))
+    for (i, impl), m in zip(mowner, model):
+        if m != impl and not results[i][5]:
+            results[i][5].append("map-model:steps-differ-from-MapModel.run")
+
+
 def report(run, exe, name, fmt, line, kv, sy, tie_bad, mline, site="-", caller="-"):
     sig_sy = ",".join(re.sub(r"\d+_(block|lock)", r"\1", re.sub(r"\*\d+", "", s)) for s in sy) if sy else "tie"
     sig = "oom scenario=%s fmt=%s site=%s<-%s symptom=%s" % (name, fmt, site, caller, sig_sy)
@@ -306,7 +371,10 @@ def report(run, exe, name, fmt, line, kv, sy, tie_bad, mline, site="-", caller="
                      "(OOM_VERBOSE=1 prints the sanitizer report)"}
     if tie_bad:
         replay.update(tie_bad)
-    if sy:
+    if sy and all(x.startswith("map-model:") for x in sy):
+        run.violation("tie", "correspondence oom (addrxlat_map_set history vs MapModel.run) broken for case: %s" % line,
+                      replay, found_input=False, signature=sig)
+    elif sy:
         run.violation("impl", "allocation failure at %s (called from %s) in scenario %s/%s: %s"
                       % (site, caller, name, fmt, "; ".join(sy)[:300]), replay, found_input=True, signature=sig)
     else:
